@@ -63,7 +63,7 @@ Definition valid_for (f : pfield) (e : jfield) : Prop :=
   | PLb _ _ _ multi _ v _ =>
       (forall x, In x (jvalue_list e) -> In x (poptions f)) /\
       (multi = false ->
-         (exists x, jvalue_list e = [x]) \/ (jvalue_list e = [] /\ match v with LStr _ => False | _ => True end))
+         (exists x, jvalue_list e = [x]) \/ jvalue_list e = [])
   end.
 
 Lemma kind_eqb_refl : forall k, kind_eqb k k = true.
@@ -359,7 +359,7 @@ Proof.
         rewrite Eq, Hval. auto.
       * eexists; eexists; eexists; split; [reflexivity|]. simpl. split; [reflexivity|]. simpl. rewrite Hval.
         destruct vs as [|x vs']; [auto|]. cbn [is_nil parse_sla]. rewrite (parse_options_fixed raw) by exact Hsub. auto.
-    + destruct (Hsingle eq_refl) as [[x Hx]|[Hx Hnv]].
+    + destruct (Hsingle eq_refl) as [[x Hx]|Hx].
       * rewrite Hx in *.
         assert (Hxin : In x (parse_options raw)) by (apply Hsub; now left).
         destruct (parse_options_spec raw x Hxin) as [Hxt _].
@@ -368,7 +368,7 @@ Proof.
            eexists; eexists; eexists; split; [reflexivity|]. simpl. split; [reflexivity|]. simpl. rewrite Hxt, Hval. auto.
         -- rewrite (proj2 (mem_In _ _) Hxin).
            eexists; eexists; eexists; split; [reflexivity|]. simpl. split; [reflexivity|]. simpl. rewrite Hxt, Hval. auto.
-      * rewrite Hx in *. destruct v as [|s|l]; [|contradiction|]; cbn [strs_eqb];
+      * rewrite Hx in *. destruct v as [|s|l]; cbn [strs_eqb];
           eexists; eexists; eexists; (split; [reflexivity|]); simpl; (split; [reflexivity|]); simpl; rewrite Hval; auto.
 Qed.
 
